@@ -358,6 +358,28 @@ def _statement_end(t, i):
     i = _skip_ws_comments(t, i)
     if t[i] == '{':
         return _scan_to_matching_brace(t, i) + 1
+    m = re.match(r'(switch|if|for|while|do|else)\b', t[i:])
+    if m:
+        k = m.group(1)
+        j = _skip_ws_comments(t, i + len(k))
+        if k == 'do':
+            e = _statement_end(t, j)
+            j = _skip_ws_comments(t, e)
+            if not t.startswith('while', j):
+                raise ExtractError('do without while')
+            q = _match_paren(t, t.index('(', j))
+            return t.index(';', q) + 1
+        if k == 'else':
+            return _statement_end(t, j)
+        if t[j] != '(':
+            raise ExtractError('%s without (' % k)
+        q = _match_paren(t, j)
+        e = _statement_end(t, q + 1)
+        if k == 'if':
+            j2 = _skip_ws_comments(t, e)
+            if re.match(r'else\b', t[j2:]):
+                return _statement_end(t, j2)
+        return e
     d = 0
     while True:
         c = t[i]
@@ -370,7 +392,7 @@ def _statement_end(t, i):
         i += 1
 
 
-def _rewrite_jumps(body):
+def _rewrite_jumps(body, sfx=''):
     """continue;/break; of *this* loop -> gotos; nested loops and switches are left alone."""
     out, i, n = '', 0, len(body)
     kw = re.compile(r'\b(for|while|switch|do|continue|break)\b')
@@ -390,7 +412,7 @@ def _rewrite_jumps(body):
             j = _skip_ws_comments(body, m.end())
             if body[j] != ';':
                 raise ExtractError('unexpected token after %s' % k)
-            out += body[i:m.start()] + ('{lc_broke = 1; goto lc_break;}' if k == 'break' else 'goto lc_continue;')
+            out += body[i:m.start()] + ('{lc_broke = 1; goto lc_break%s;}' % sfx if k == 'break' else 'goto lc_continue%s;' % sfx)
             i = j + 1
         elif k == 'do':
             e = _statement_end(body, m.end())
@@ -458,7 +480,9 @@ def extract_loopfn(repo, ent):
         cond = inner[p + 1:q]
         le = inner.index(';', q) + 1
     pre, post = inner[:ls], inner[le:]
-    body2 = _rewrite_jumps(body)
+    P = ent.get('macro_prefix', 'LC')
+    sfx = '' if P == 'LC' else '_' + P
+    body2 = _rewrite_jumps(body, sfx)
     name = ent['name']
     if len(re.findall(r'\b%s\b' % re.escape(name), header)) != 1:
         raise ExtractError('function name %s not found exactly once in its header' % name)
@@ -474,13 +498,34 @@ def extract_loopfn(repo, ent):
     g.append(ln(pre) if pre.strip() else '')
     g.append(pre + '\n')
     g.append('  { // loop scope (generated)\n    int lc_broke = 0;\n')
-    if k == 'do':
+    K = ent.get('unroll')
+    if K:
+        # bounded alternative: the loop is unrolled K times, each copy verbatim, followed by an
+        # unwinding assertion (a harness using this is BOUNDED by construction)
+        if init.strip():
+            g.append(ln(init) + '    ' + init.strip() + ';\n')
+        for c in range(1, int(K) + 1):
+            tag = '%s_u%d' % (sfx, c)
+            b_c = _rewrite_jumps(body, tag).replace('goto lc_break%s;' % tag, 'goto lc_break%s;' % sfx)
+            if k != 'do':
+                g.append(ln(cond) + '    if (!(' + cond.strip() + ')) goto lc_break%s;\n' % sfx)
+            g.append('    {\n' + ln(body) + b_c + '\n    lc_continue%s: ;\n' % tag)
+            if incr.strip():
+                g.append(ln(incr) + '      ' + incr.strip() + ';\n')
+            g.append('    }\n')
+            if k == 'do':
+                g.append(ln(cond) + '    if (!(' + cond.strip() + ')) goto lc_break%s;\n' % sfx)
+        if k == 'do':
+            g.append('    __CPROVER_assert(0, "unwinding assertion: loop needs more than %d iterations"); __CPROVER_assume(0);\n' % int(K))
+        else:
+            g.append('    { bool lc_more = (' + cond.strip() + '); __CPROVER_assert(!lc_more, "unwinding assertion: loop needs more than %d iterations"); __CPROVER_assume(!lc_more); }\n' % int(K))
+    elif k == 'do':
         g.append('    %s_AT_ENTRY;\n' % P)
         g.append('    if (gh_lc_phase == 0) { __CPROVER_assert(%s_INV, "loop invariant holds on entry (base case)"); __CPROVER_assume(0); }\n' % P)
         g.append('    %s_HAVOC; __CPROVER_assume(%s_INV);\n' % (P, P))
         g.append('    { %s_FRAME_SNAPSHOT; unsigned long lc_decr_before = (%s_DECR);\n' % (P, P))
         g.append(ln(body) + body2 + '\n')
-        g.append('    lc_continue: ;\n')
+        g.append('    lc_continue%s: ;\n' % sfx)
         g.append(ln(cond) + '    if (' + cond + ')\n')
         g.append('      { __CPROVER_assert(%s_INV, "loop invariant is preserved (inductive step)");\n' % P)
         g.append('        __CPROVER_assert((%s_DECR) < lc_decr_before, "loop variant decreases");\n' % P)
@@ -497,14 +542,14 @@ def extract_loopfn(repo, ent):
         g.append(ln(cond) + '    if (' + cond.strip() + ')\n')
         g.append('      {\n')
         g.append(ln(body) + body2 + '\n')
-        g.append('      lc_continue: ;\n')
+        g.append('      lc_continue%s: ;\n' % sfx)
         if incr.strip():
             g.append(ln(incr) + '      ' + incr.strip() + ';\n')
         g.append('        __CPROVER_assert(%s_INV, "loop invariant is preserved (inductive step)");\n' % P)
         g.append('        __CPROVER_assert((%s_DECR) < lc_decr_before, "loop variant decreases");\n' % P)
         g.append('        __CPROVER_assert(%s_FRAME_UNCHANGED, "loop frame: nothing outside the loop assigns clause changed");\n' % P)
         g.append('        __CPROVER_assume(0);\n      }\n')
-    g.append('    lc_break: ;\n    %s_AT_EXIT;\n  }\n' % P)
+    g.append('    lc_break%s: ;\n    %s;\n  }\n' % (sfx, '((void) lc_broke)' if K else P + '_AT_EXIT'))
     g.append(ln(post) if post.strip() else '')
     g.append(post + '\n}\n')
     gen = ''.join(g)
